@@ -59,6 +59,51 @@ def split_obs(flat):
     return out
 
 
+def write_diff_v(path, module, runner, cases):
+    """cases: list of (cfg ints, labels, observations)"""
+    with open(path, 'w') as f:
+        f.write('From Coq Require Import List ZArith.\nImport ListNotations.\nOpen Scope Z_scope.\n')
+        f.write('From DP Require Import %s.\n' % module)
+        f.write('Definition cases : list (list Z * list (list Z) * list (list Z)) := [\n')
+        f.write(';\n'.join('(%s, [%s], [%s])' % (zlist(c), ';'.join(zlist(l) for l in ls), ';'.join(zlist(o) for o in os_))
+                            for c, ls, os_ in cases))
+        f.write('].\n')
+        f.write('Eval vm_compute in (map %s cases).\n' % runner)
+
+
+def run_diff(tag, module, runner, cases, shard=40, jobs=16, timeout=900):
+    """The comparison itself runs inside Coq: for every case the index of the first label after
+    which the model's observation differs from the implementation's (-1: none)."""
+    os.makedirs(WORK, exist_ok=True)
+    shards = [cases[i:i + shard] for i in range(0, len(cases), shard)]
+    paths = []
+    for k, sh_cases in enumerate(shards):
+        p = os.path.join(WORK, 'diff_%s_%d.v' % (tag, k))
+        write_diff_v(p, module, runner, sh_cases)
+        paths.append(p)
+
+    def one(p):
+        rc, out = sh(['coqc', '-noglob', '-Q', os.path.join(COQ, 'theories'), 'DP', p], timeout=timeout, cwd=WORK)
+        if rc != 0:
+            raise RuntimeError('coqc failed on %s:\n%s' % (p, out[-2000:]))
+        i = out.index('=')
+        j = out.rindex(':')
+        return json.loads(out[i + 1:j].replace('%Z', '').replace(';', ',').replace('(', '').replace(')', ''))
+
+    res = []
+    with ThreadPoolExecutor(max_workers=jobs) as ex:
+        for r in ex.map(one, paths):
+            res.extend(r)
+    for p in paths:
+        for ext in ('.v', '.vo', '.vok', '.vos', '.glob'):
+            try:
+                os.remove(p[:-2] + ext)
+            except OSError:
+                pass
+    assert len(res) == len(cases), (len(res), len(cases))
+    return res
+
+
 def run_model(tag, module, runner, cases, shard=150, jobs=16, timeout=900):
     """Evaluate the model on all cases inside Coq. Returns list (per case) of obs lists."""
     os.makedirs(WORK, exist_ok=True)
